@@ -819,12 +819,57 @@ fn write_replay_file(path: &Path, prop: &str, tier: Tier, build: &str, seed: u64
     std::fs::write(path, j.to_pretty()).expect("write replay file");
 }
 
-/// regenerates the tape of (seed, prop, run) by running it in a child that dumps the lanes first
-fn lanes_of_run(prop: &str, seed: u64, run: u64) -> Vec<Vec<u64>> {
-    // the tape of a crashed run is not available; replay files for those carry seed+run and the
-    // replayer regenerates the choices from the seed (Rng mode is a pure function of them).
-    let _ = (prop, seed, run);
-    Vec::new()
+/// Minimisation of a crash-type violation (the worker process died: abort, stack overflow, hang).
+/// The tape is the raw PRNG output prefix of the run (no execution needed); every candidate is
+/// executed in a fresh child process and accepted iff the child dies in the same class.
+#[allow(clippy::too_many_arguments)]
+fn minimize_isolated(bin: &Path, prop: &str, tier: Tier, build: &str, seed: u64, run: u64, signature: &str, lifted: &[String], tmp: &Path, budget: usize) -> Option<(Vec<Vec<u64>>, usize, usize)> {
+    let raw = crate::choices::Choices::raw_tape_from_seed(seed, prop, run, 4096);
+    let cand_path = tmp.join(format!("cand-{}.json", std::process::id()));
+    let watchdog = if signature.ends_with("process-hang") { 3 } else { 20 };
+    let mut spent_total = 0usize;
+    let mut test = |cand: &Vec<Vec<u64>>| -> bool {
+        write_replay_file(&cand_path, prop, tier, build, seed, run, signature, "", cand, lifted, None, &[]);
+        let o = replay_file_in_child(bin, &cand_path, watchdog);
+        replay_signature(prop, &o).as_deref() == Some(signature)
+    };
+    // the raw tape must reproduce the crash at all (it does unless the run draws > 4096 values per lane)
+    spent_total += 1;
+    if !test(&raw) {
+        let _ = std::fs::remove_file(&cand_path);
+        return None;
+    }
+    let before: usize = raw.iter().map(Vec::len).sum();
+    // pre-pass: shortest reproducing prefix per lane (binary search; the unused tail is most of it)
+    let mut best = raw;
+    for lane in 0..best.len() {
+        if spent_total >= budget {
+            break;
+        }
+        let mut empty = best.clone();
+        empty[lane].clear();
+        spent_total += 1;
+        if test(&empty) {
+            best = empty;
+            continue;
+        }
+        let (mut lo, mut hi) = (0usize, best[lane].len()); // prefix of length hi reproduces, lo does not
+        while hi - lo > 1 && spent_total < budget {
+            let mid = lo + (hi - lo) / 2;
+            let mut c = best.clone();
+            c[lane].truncate(mid);
+            spent_total += 1;
+            if test(&c) {
+                hi = mid;
+            } else {
+                lo = mid;
+            }
+        }
+        best[lane].truncate(hi);
+    }
+    let (min, spent) = runner::minimize_with(best, budget.saturating_sub(spent_total), &mut test);
+    let _ = std::fs::remove_file(&cand_path);
+    Some((min, before, spent_total + spent))
 }
 
 pub fn main(args: &[String]) -> i32 {
@@ -1047,13 +1092,23 @@ fn check(args: &[String], root: &Path, bins: &Bins) -> i32 {
         let base = format!("{}-{}-{}", prop, slug(&v.signature), seed);
         let full_path = replays_dir.join(format!("{base}.full.json"));
         let min_path = replays_dir.join(format!("{base}.json"));
-        let lanes = v.lanes.clone().unwrap_or_else(|| lanes_of_run(&prop, seed, v.run));
-        let from_seed = v.lanes.is_none();
+        let mut lanes = v.lanes.clone().unwrap_or_default();
+        let mut from_seed = v.lanes.is_none();
+        let mut isolated_stats = None;
+        if from_seed && prop != "C19" {
+            // crash-type violation: raw tape from the seed, shrunk with one child process per candidate
+            let budget = if v.signature.ends_with("process-hang") { 60 } else { 160 };
+            if let Some((min, before, spent)) = minimize_isolated(bin, &prop, tier, &v.build, seed, v.run, &v.signature, &lifted, &tmp, budget) {
+                isolated_stats = Some((before, min.iter().map(Vec::len).sum::<usize>(), spent));
+                lanes = min;
+                from_seed = false;
+            }
+        }
         let extra_seed: Vec<(&str, J)> = if from_seed { vec![("from_seed", J::Bool(true))] } else { vec![] };
         write_replay_file(&full_path, &prop, tier, &v.build, seed, v.run, &v.signature, &v.detail, &lanes, &lifted, None, &extra_seed);
         // minimise in a child (in-process shrinking there; crash-type violations are not shrunk)
         let mut final_path = full_path.clone();
-        if !from_seed {
+        if !from_seed && isolated_stats.is_none() {
             let margs = vec!["minimize".to_string(), full_path.display().to_string(), min_path.display().to_string()];
             if let ChildEnd::Ok(_) = spawn_worker(bin, &margs, 4 * 1024 * 1024) {
                 if min_path.exists() {
@@ -1080,6 +1135,9 @@ fn check(args: &[String], root: &Path, bins: &Bins) -> i32 {
         let mut extra: Vec<(&str, J)> = vec![("unminimised", J::str(full_path.display().to_string()))];
         if from_seed {
             extra.push(("from_seed", J::Bool(true)));
+        }
+        if let Some((before, after, spent)) = isolated_stats {
+            extra.push(("minimisation", J::obj().with("mode", J::str("out-of-process: one child per candidate; tape = raw PRNG outputs of the run")).with("tape_entries_before", J::u(before as u64)).with("tape_entries_after", J::u(after as u64)).with("candidates_executed", J::u(spent as u64))));
         }
         write_replay_file(&final_path, &prop, tier, &v.build, seed, v.run, &v.signature, if o1.detail.is_empty() { &v.detail } else { &o1.detail }, &lanes_final, &lifted, Some(&o1), &extra);
         println!("violation: {} (build {}, run {}): {}", v.signature, v.build, v.run, first_line(&v.detail));
@@ -1203,7 +1261,7 @@ fn expected_probes(prop: &str) -> &'static [&'static str] {
         "C01" => &["back_to_back_stream>=2", "fragmented_length_seen"],
         "C04" => &["read_failed_then_accessors_called", "truncated_delivery", "EINTR_retried"],
         "C05" => &["unknown_addition_present", "unknown_alternative_or_value_selected", "message_longer_than_127_octets"],
-        "C12" => &["reference_local", "reference_import_by_name", "reference_import_by_name_and_oid", "reference_import_by_oid_only", "same_name_other_oid_decoy_loaded"],
+        "C12" => &["reference_local", "reference_import_by_name", "reference_import_by_name_and_oid", "reference_import_by_oid_only", "decoy_same_name_other_oid", "decoy_same_name_no_oid", "decoy_alias_name_no_oid"],
         "C14" => &["multi_module_scope", "fault_point_enumeration_modules"],
         "C17" => &["exact_fit_slice", "EINTR_retried", "roundtrip_equal_only_up_to_default_equivalence"],
         "C19" => &["dde_error_carries_description", "fault_free_delivery_compared"],
